@@ -147,7 +147,7 @@ Error ArenaBitSet::_resize(Arena& arena, size_t new_size, size_t ideal_capacity,
       num_bits = Support::bit_size_of<BitWord> - start_bit;
     }
 
-    data[idx++] |= pattern << num_bits;
+    data[idx++] |= (pattern >> (Support::bit_size_of<BitWord> - num_bits)) << start_bit;
   }
 
   // Initialize all bit-words after the last bit-word of the old size.
@@ -158,7 +158,7 @@ Error ArenaBitSet::_resize(Arena& arena, size_t new_size, size_t ideal_capacity,
 
   // Clear unused bits of the last bit-word.
   if (end_bit) {
-    data[end_index - 1] = pattern & ((BitWord(1) << end_bit) - 1);
+    data[end_index - 1] &= (BitWord(1) << end_bit) - 1;
   }
 
   _size = uint32_t(new_size);
